@@ -403,7 +403,8 @@ class Pipeline:
     def registers(self, app_id=0):
         out = {}
         for name, grp in self.executor._registers[app_id].items():
-            out[name.name] = list(grp._register)
+            reg = grp._register
+            out[name.name] = [reg[i] for i in range(len(reg))] if not isinstance(reg, dict) else [reg[k] for k in sorted(reg)]
         return out
 
     def arrays(self, app_id=0):
